@@ -310,11 +310,35 @@ COMBO_DEFS = [
     "~ = '<u>|</u>'", "%% = '<ins>|</ins>'", "= = '<i class=\"{u}\">||</i>'", "_ = '<em class=\"e\">|</em>'", "`` = '<kbd>||</kbd>'",
     "/zz/ = '[$1]'", "/(z+)/i = '<s>$$1</s>$1'", "/\\bteh\\b/ = 'the'", "/(a)|(b)/ = '$2$1'",
     "|code| = '<pre class=\"k\">|</pre> +macros'", "|paragraph| = '<p style=\"a:b\">|</p>'", "|division| = '<section>|</section> -container +spans'",
+    "|paragraph| = '<p class=\"normal\">|</p>'", "|division| = '<div id=\"d0\" style=\"x:y\">|</div>'", "|quote| = '<blockquote class=\"q\">|</blockquote>'",
+    "|quote-paragraph| = '<blockquote style=\"m:0\"><p>|</p></blockquote>'", "|indented| = '<pre id=\"own\"><code>|</code></pre>'",
+    "= = '<mark>|</mark>'", "== = '<mark>||</mark>'", "+ = '<ins>|</ins>'", "! = '<b class=\"w\">|</b>'",
     "|quote| = '+macros'", "|indented| = '-specials'", "|html| = '+skip'", "|comment| = '-skip'",
     ".safeMode = '3'", ".safeMode = '12'", ".htmlReplacement = '<i>{u}</i>'", ".reset = 'true'",
 ]
 COMBO_PENDING = ['.k1 k2', '.#i7', '.#I7', '."a:b"', '."c:d;"', '.[title="{u}"]', '.k #j "e:f" [data-x="1"]', '.+skip', '.-macros', '.-spans', '.+macros +spans',
                  '.-specials', '.+container', '.-container', '.+specials -spans', '.k1\n.k2 #i8', '.-macros\n.+skip']
+# pieces of one Block Attributes line (1-4 of them make a line): class names, id, css (with the backslash sequences an `re` template or a
+# string escape would interpret), html attributes, block options
+PENDING_PIECES = [
+    ['k1', 'k1 k2', 'note', 'Big x1'], ['#i7', '#I7', '#own', '#d0'],
+    ['"a:b"', '"c:d;"', '"width:100px\\0/"', '"background:url(img\\icons\\dot.png)"', '"quotes:\'\\e900\'"', '"a:\\g<1>"', '"c:\\1\\2;d:\\01"', '"e:\\n\\t"'],
+    ['[title="{u}"]', '[data-x="1"]', '[title=\'6" nail\']', '[data-p="a\\1b"]'],
+    ['+skip', '-macros', '-spans', '+container', '-container', '+specials', '-specials', '+macros +spans', '-skip'],
+]
+
+
+def pending_line(rng):
+    k = rng.randint(1, 4)
+    idx = sorted(rng.sample(range(len(PENDING_PIECES)), k))
+    return '.' + ' '.join(rng.choice(PENDING_PIECES[i]) for i in idx)
+
+
+# state-changing lines after which an earlier chunk is repeated verbatim (what a stale cache would get wrong)
+COMBO_SWITCHES = [".safeMode = '1'", ".safeMode = '2'", ".safeMode = '5'", ".htmlReplacement = '[R]'", "* = '<b>|</b>'", "_ = '<u>|</u>'", "` = '<tt>|</tt>'",
+                  "{u} = 'changed'", "{q} = '[$1]'", "{t} = '<i>$1</i>'", "/zz/ = 'ZZ'", "/\\bteh\\b/ = 'THE'", "|paragraph| = '<p class=\"late\">|</p>'",
+                  "{--header-ids} = ''", "~ = '<sub>|</sub>'", "= = '<mark>|</mark>'"]
+
 COMBO_CONSUMERS = [
     'para {u} *e* {q|_a_|b} zz &x', '# Head {u} zz', '== Head two ==', '- item {u}\n- {q|*x*}\n\n  attached {t|v}', '. one\n.. two zz\n. three',
     'term:: def {u}\n\n  ``\n  code {u}\n  ``', '``\ncode {u} *e* <b>\n``', '`` js\ncode\n``', '  indented {u} *e*', '""\nquote {u}\n\n- li\n""',
@@ -322,6 +346,12 @@ COMBO_CONSUMERS = [
     '<image:{u}|alt {u}>', '<image:pic.png>', '<<#a{u}>>', '/*\ncomment {u}\n*/', '// line', '{t|x|y}', '{t|x}\nnext line', '{undefined|x}',
     '> quote para {u}', '>>\nq2\n>>', '[cap {u} http://u.v/ zz](http://h/{u})', '<http://h/|cap *e*> ~w~ =v= %%p%%', '\\{u} \\*lit* \\<b>',
     '<joe@foo.com|{u}> ![a {u}](i.png) ^[c](http://x/)', '..\n..', '``\n``', 'a \\\nb', '*a _b* c_ `d*`',
+    # first tags that already carry some of the attributes
+    '<div class="box">x {u}</div>', '<div style="margin:0">x</div>', '<div id="own">x</div>', '<p class="a" style="b:c">x</p>', "<div title='6\" nail' class=\"a\">x</div>",
+    "<div a='1' b='2' c='3' d='4'>x</div>", '<section data-k="v">x *e*</section>', 'Press <kbd>Enter</kbd> to {q|*go*} on', 'say {q|a *brave* word} zz',
+    # urls and quotes next to each other
+    'see =mark http://u.v/p= today', 'see ==x http://u.v/== end', '~w http://a.b/c~ and +http://h/q?x=+ !http://e.f/! ', '*http://a.b/c* _<http://d.e/>_ `http://f.g/`',
+    '#### Head `c` zz ####', 'term:: =def= {u}', '- =a http://u.v/=\n- {q|=b=}',
 ]
 
 
@@ -329,14 +359,22 @@ def combo_source(rng):
     """3-9 features: definitions first (sometimes later), pending Block Attributes right before consumers, sometimes with line
     blocks, lists or blank lines in between."""
     parts = [rng.choice(COMBO_DEFS) for _ in range(rng.randint(1, 3))]
+    used = []
     for _ in range(rng.randint(1, 4)):
+        if used and rng.random() < 0.25:
+            # something that changes what a text renders to, then the very same text again
+            parts.append(rng.choice(COMBO_SWITCHES))
+            parts.append(rng.choice(used))
+            continue
         if rng.random() < 0.6:
-            pend = rng.choice(COMBO_PENDING)
+            pend = rng.choice(COMBO_PENDING) if rng.random() < 0.5 else pending_line(rng)
             if rng.random() < 0.25:
                 pend += '\n' + rng.choice(['// c', '', "{u} = 'late'", '# H zz'])
-            parts.append(pend + '\n' + rng.choice(COMBO_CONSUMERS))
+            used.append(rng.choice(COMBO_CONSUMERS))
+            parts.append(pend + '\n' + used[-1])
         else:
-            parts.append(rng.choice(COMBO_CONSUMERS))
+            used.append(rng.choice(COMBO_CONSUMERS))
+            parts.append(used[-1])
         if rng.random() < 0.2:
             parts.append(rng.choice(COMBO_DEFS))
     if rng.random() < 0.2:
